@@ -266,6 +266,84 @@ def long_programs():
                      ['prefix', 'p'], ['skip_unauthorized', None]]]]
 
 
+ERR_BLOCKS = [('if', 'x'), ('in', 's'), ('with', 'o'), ('let', 'a=b'),
+              ('try', ''), ('unless', 'x'), ('raise', 'x'), ('comment', '')]
+ERR_KINDS = ('misspelt-end', 'stray-end', 'stray-unknown-end', 'missing-end',
+             'unknown-open', 'crossed', 'wrong-end', 'cont-outside',
+             'cont-unknown')
+
+
+def error_forms(kind, b, a):
+    """one malformed template in the four spellings (dtml, SSI with / and
+    with end, EPFS)"""
+    A = (' ' + a) if a else ''
+    t = {
+        'misspelt-end': ('<dtml-%s%s>A</dtml-%sf>', '<!--#%s%s-->A<!--#/%sf-->',
+                         '<!--#%s%s-->A<!--#end%sf-->', '%%(%s%s)[A%%(%sf)]'),
+        'unknown-open': ('<dtml-%sq%s>A</dtml-%sq>',
+                         '<!--#%sq%s-->A<!--#/%sq-->',
+                         '<!--#%sq%s-->A<!--#end%sq-->',
+                         '%%(%sq%s)[A%%(%sq)]'),
+        'crossed': ('<dtml-%s%s><dtml-if z>A</dtml-%s></dtml-if>',
+                    '<!--#%s%s--><!--#if z-->A<!--#/%s--><!--#/if-->',
+                    '<!--#%s%s--><!--#if z-->A<!--#end%s--><!--#endif-->',
+                    '%%(%s%s)[%%(if z)[A%%(%s)]%%(if)]'),
+    }
+    if kind in t:
+        return [f % (b, A, b) for f in t[kind]]
+    if kind == 'stray-end':
+        return ['A</dtml-%s>B' % b, 'A<!--#/%s-->B' % b,
+                'A<!--#end%s-->B' % b, 'A%%(%s)]B' % b]
+    if kind == 'stray-unknown-end':
+        return ['A</dtml-%sq>B' % b, 'A<!--#/%sq-->B' % b,
+                'A<!--#end%sq-->B' % b, 'A%%(%sq)]B' % b]
+    if kind == 'missing-end':
+        return ['<dtml-%s%s>A' % (b, A), '<!--#%s%s-->A' % (b, A),
+                '<!--#%s%s-->A' % (b, A), '%%(%s%s)[A' % (b, A)]
+    if kind == 'wrong-end':
+        return ['<dtml-%s%s>A</dtml-call>' % (b, A),
+                '<!--#%s%s-->A<!--#/call-->' % (b, A),
+                '<!--#%s%s-->A<!--#endcall-->' % (b, A),
+                '%%(%s%s)[A%%(call)]' % (b, A)]
+    if kind == 'cont-outside':
+        return ['A<dtml-else>B', 'A<!--#else-->B', 'A<!--#else-->B',
+                'A%(else)[B']
+    return ['<dtml-%s%s>A<dtml-elsf>B</dtml-%s>' % (b, A, b),
+            '<!--#%s%s-->A<!--#elsf-->B<!--#/%s-->' % (b, A, b),
+            '<!--#%s%s-->A<!--#elsf-->B<!--#end%s-->' % (b, A, b),
+            '%%(%s%s)[A%%(elsf)[B%%(%s)]' % (b, A, b)]
+
+
+def run_errors(res, case):
+    """"raises the same errors": a malformed template is refused for the
+    same reason in every spelling"""
+    from DocumentTemplate import HTML
+    from DocumentTemplate import String
+    from DocumentTemplate.DT_Util import ParseError
+    n = 0
+    for kind in ERR_KINDS:
+        for b, a in ERR_BLOCKS:
+            srcs = error_forms(kind, b, a)
+            rs = []
+            for cls, src in zip((HTML, HTML, HTML, String), srcs):
+                try:
+                    cls(src).cook()
+                    rs.append('accepted')
+                except ParseError as e:
+                    rs.append(str(e.args[0]).split(', for tag ')[0])
+                except Exception as e:
+                    rs.append('exception:' + type(e).__name__)
+                n += 1
+            if len(set(rs)) > 1:
+                res.violate('same-errors', 'errors:%s' % kind,
+                            {'sources': srcs, 'reasons': rs},
+                            {'label': 'errors'})
+    res.evals = n
+    res.nt_count = n
+    res.outcome = 'errors'
+    return res
+
+
 def elseblk_programs():
     """the deprecated stand-alone else block, alone and inside blocks whose
     own name it is a (word or mid-word) prefix of"""
@@ -325,6 +403,7 @@ def cases(tier):
         yield {'label': label, 'nodes': b, 'entity_nodes': a, 'tier': tier}
     for tag in ('if', 'in', 'unless', 'with'):
         yield {'label': 'spelling', 'tag': tag}
+    yield {'label': 'errors'}
     # entity equivalences
     for name in ('x', 'sequence-item', 'a-b-c', 'x_y', 'x.y', 'q-', 'x9'):
         for mods in [['html_quote'], []] + [[m] for m in MODS] + \
@@ -453,6 +532,8 @@ def run(case):
         return run_spelling(res, case)
     if case['label'] == 'entity':
         return run_entity(res, case)
+    if case['label'] == 'errors':
+        return run_errors(res, case)
     nodes = case['nodes']
     base_src, base_t, base_fp = compile_variant(nodes, 'dtml', {})
     # "x" and expr="x" are two spellings inside one syntax; the tag records
